@@ -320,7 +320,18 @@ func (e *Encoder) envAt(st *State, blk *ssa.BasicBlock, phiOverride map[string]V
 // resolveLocal finds the value of source variable `name` visible at the start/end of blk.
 func (e *Encoder) resolveLocal(name string, blk *ssa.BasicBlock, st *State) (Val, bool) {
 	for b := blk; b != nil; b = b.Idom() {
-		for i := len(b.Instrs) - 1; i >= 0; i-- {
+		start := len(b.Instrs) - 1
+		if b == blk && b == e.curBlk && e.curInstr != nil {
+			// in the block being encoded only what precedes the current instruction is in scope (a later
+			// `x = true` would otherwise be read as the value of x at this point)
+			for k, ins := range b.Instrs {
+				if ins == e.curInstr {
+					start = k
+					break
+				}
+			}
+		}
+		for i := start; i >= 0; i-- {
 			switch in := b.Instrs[i].(type) {
 			case *ssa.DebugRef:
 				if id, ok := in.Expr.(interface{ String() string }); ok && id.String() == name {
